@@ -102,6 +102,25 @@ CHECKS.update({
     note="Known findings F-SCC-DUP-FRAMES and F-SCC-ROLLUP-ROW15 attributed by exact classifiers; columns, alignment heuristics and blank-cell attributes not judged.",
     design="DESIGN.md section 4, C08"),
 })
+CHECKS.update({
+  "C05": dict(
+    technique="runtime monitoring: round-trip monitor (writer bytes observed with an independent time-expression parser; re-read document compared with the source through the reference ISD; log records of the re-read observed)",
+    text="For generated documents (every element kind incl. ruby delimiters, every style property and value form, animation, regions, initial "
+         "values, xml:space/lang) under all writer time formats and 7 frame rates: the writer must not raise, every xml:id must be in the written "
+         "bytes, written begin/end values are exact when representable and otherwise within one unit and order-preserving, frame-rate attributes "
+         "match, the reader must not log WARNING/ERROR on the writer's output, document parameters are preserved, and source and re-read documents "
+         "have identical reference snapshots (structure, text, white space, language, computed styles to 1e-5) at every boundary instant.",
+    note="The IMSC reader does not keep xml:id of content elements, so element preservation is observed in the written bytes; childless/zero-length ruby parts are not generated (reader prunes empty intervals).",
+    design="DESIGN.md section 4, C05"),
+  "C09": dict(
+    technique="runtime monitoring: reference EBU Tech 3264 interpreter (byte-level GSI/TTI generator with AST) compared with the document stl.reader produces, through ISD snapshots and model getters; bundled corpus differentially",
+    text="Generated STL files over all DFC/CCT/DSC values, TCP/MNR, SN/EBN/CS/JC/VP/CF variety and text fields mixing characters (incl. ISO 6937 "
+         "diacritic pairs), control codes, newlines, space runs and filler, under all reader configurations, plus the ~50 real files: subtitle times "
+         "at the declared frame rate minus programme start, dropped subtitles, skipped user-data/comment blocks, decoded text up to the first 8Fh, "
+         "line breaks, per-character colours/italics/underline, cumulative sets, alignment and safe-area region anchoring are compared.",
+    note="Abstains on uncertain ISO 6937 cells, STL30.01 drop/non-drop reading, irregular cumulative sequences, space cells produced by control codes, exact region numbers.",
+    design="DESIGN.md section 4, C09"),
+})
 NOT_CLAIMED = {}
 
 def main():
